@@ -562,6 +562,35 @@ def rule_yield_passthrough(ctx: Ctx, rule: str) -> None:
             inner = [e for e in p.events if e[0] in ('call', 'yield', 'except', 'store') and isinstance(e[-1], tuple) and len(e[-1]) == 2 and loop_tag in e[-1][1][-12:]]
             if inner and not (inner[-1][0] == 'call' and inner[-1][1] == f'{WM}:WcMatch.is_aborted'):
                 bad_a.append(f'an iteration over {"directories" if loop_tag == "[1]" else "files"} does not end with the abort test')
+    # the abort flag can change between two polls (kill() from a hook): with every poll its own unknown, once a poll has answered
+    # "aborted" nothing of the walk may follow -- no further check, no hook, no yield
+    from .common import api_table
+    def fresh(fr: Any, n: Any, a: list, k: dict) -> Any:
+        # numbered by position on the path (the evaluator forks by replaying a path, so the name must not depend on anything else)
+        done = sum(1 for e in fr.ev.events if e[0] == 'poll')
+        fr.ev.events.append(('poll', done + 1, tuple(fr.ev.ctx)))
+        return Opaque(f'aborted?{done + 1}')
+    _ev2, rows2 = api_table(repo, WM, 'WcMatch._walk', explore_handlers=True, max_paths=200000, call_models={f'{WM}:WcMatch.is_aborted': fresh})
+    bad_k = []
+    n_k = 0
+    for p in rows2:
+        focus(p)
+        yes = [k for k, v in p.decisions.items() if k.startswith('aborted?') and v is True]
+        if not yes:
+            continue
+        n_k += 1
+        # the event stream after the call that produced the first positive answer
+        first_yes = min(int(k[len('aborted?'):]) for k in yes)
+        idx = next((i for i, e in enumerate(p.events) if e[0] == 'poll' and e[1] == first_yes), None)
+        if idx is None:
+            continue
+        later = [e for e in p.events[idx + 1:] if (e[0] == 'call' and e[1].startswith(f'{WM}:WcMatch.') and not e[1].endswith('.is_aborted')) or e[0] == 'yield']
+        if later:
+            e0 = later[0]
+            bad_k.append(f'after a positive abort poll the walk still does {e0[1].split(".")[-1] if e0[0] == "call" else "a yield"}')
+    ctx.ob(rule, f'{WM}:WcMatch._walk/nothing-after-abort', n_k >= 3 and not bad_k, site, 'once is_aborted() has answered True no check, hook or yield follows',
+           f'{n_k} rows agree' if n_k >= 3 and not bad_k else (sorted(set(bad_k))[0] if bad_k else f'only {n_k} rows see an abort'),
+           witness='kill() from on_validate_directory: match() must not go on to examine (and return) a file of that directory')
     if n_file < 4:
         raise AnalysisError(f'_walk: only {n_file} rows enter the file loop')
     ctx.ob(rule, f'{WM}:WcMatch._walk/yield-values', not bad_y, site, 'yield on_match(base, name) | non-None result of on_error / on_skip(base, name)',
